@@ -404,6 +404,38 @@ pub fn boundary_values(l: &Layout, section: u8) -> Vec<u32> {
     v
 }
 
+/// Pairs of fields of one record whose combination the reader does arithmetic on:
+/// (offset, length) of a class's two member ranges, and the four line fields of a
+/// member taken two at a time. Returned as (offset of first u32, offset of second u32,
+/// section of the record).
+pub fn field_pairs(l: &Layout) -> Vec<(usize, usize, u8)> {
+    let mut v = vec![];
+    for c in 0..l.hdr.num_classes as usize {
+        let o = l.classes_off + c * CLASS_LEN;
+        v.push((o + 12, o + 16, 1));
+        v.push((o + 20, o + 24, 1));
+    }
+    for (base, n, sec) in [(l.members_off, l.hdr.num_members as usize, 2u8), (l.by_params_off, l.hdr.num_by_params as usize, 3u8)] {
+        for m in 0..n {
+            let o = base + m * MEMBER_LEN;
+            // startline 4, endline 8, original_startline 24, original_endline 28
+            for (a, b) in [(4, 8), (4, 24), (8, 24), (24, 28), (4, 28), (8, 28)] {
+                v.push((o + a, o + b, sec));
+            }
+        }
+    }
+    v
+}
+
+/// Values for pair corruptions: counts of every section and the extremes.
+pub fn pair_values(l: &Layout) -> Vec<u32> {
+    let h = l.hdr;
+    let mut v = vec![0, 1, 2, h.num_members, h.num_members.wrapping_sub(1), h.num_by_params, h.num_by_params.wrapping_add(1), 1 << 31, (1 << 31) - 1, u32::MAX - 1, u32::MAX];
+    v.sort_unstable();
+    v.dedup();
+    v
+}
+
 #[derive(Clone, Debug)]
 pub struct Corruption {
     pub desc: String,
@@ -419,7 +451,19 @@ pub fn corrupt(buf: &mut [u8], l: &Layout, rng: &mut Rng) -> Corruption {
         let v = *rng.pick(&vals);
         wr32(buf, f.off, v);
         Corruption { desc: format!("field sec{} idx{} @{} := {}", f.section, f.idx, f.off, v) }
-    } else if kind < 55 && !fields.is_empty() {
+    } else if kind < 50 && !fields.is_empty() {
+        // two related fields of one record
+        let pairs = field_pairs(l);
+        if pairs.is_empty() {
+            return Corruption { desc: "noop".into() };
+        }
+        let (a, b, sec) = *rng.pick(&pairs);
+        let vals = pair_values(l);
+        let (va, vb) = (*rng.pick(&vals), *rng.pick(&vals));
+        wr32(buf, a, va);
+        wr32(buf, b, vb);
+        Corruption { desc: format!("pair sec{sec} @{a}:={va} @{b}:={vb}") }
+    } else if kind < 58 && !fields.is_empty() {
         // multi-edit
         let n = 2 + rng.below(4);
         let mut d = String::from("multi:");
@@ -431,7 +475,7 @@ pub fn corrupt(buf: &mut [u8], l: &Layout, rng: &mut Rng) -> Corruption {
             d.push_str(&format!(" @{}:={}", f.off, v));
         }
         Corruption { desc: d }
-    } else if kind < 63 {
+    } else if kind < 65 {
         // swap or duplicate two records of one section
         let (base, n, sz) = match rng.below(3) {
             0 => (l.classes_off, l.hdr.num_classes as usize, CLASS_LEN),
